@@ -5,6 +5,7 @@ package main
 
 import (
 	"fmt"
+	"go/constant"
 	"go/token"
 	"go/types"
 	"sort"
@@ -480,6 +481,7 @@ func hasCmpFact(facts []Fact, want string, lhs, rhs VM) bool {
 		if !f.Pol {
 			op = negCmp(op)
 		}
+		op = unsignedZeroNorm(op, b.X, b.Y)
 		if lhs(b.X) && rhs(b.Y) && cmpImplies(op, want) {
 			return true
 		}
@@ -506,6 +508,7 @@ func hasCmpFactExact(facts []Fact, want string, lhs, rhs VM) bool {
 		if !f.Pol {
 			op = negCmp(op)
 		}
+		op = unsignedZeroNorm(op, b.X, b.Y)
 		if lhs(b.X) && rhs(b.Y) && op == want {
 			return true
 		}
@@ -514,6 +517,40 @@ func hasCmpFactExact(facts []Fact, want string, lhs, rhs VM) bool {
 		}
 	}
 	return false
+}
+
+// unsignedZeroNorm: for an unsigned x, `x != 0` is `x > 0` and `x <= 0` is
+// `x == 0` (and the mirrored forms with the zero on the left).
+func unsignedZeroNorm(op string, x, y ssa.Value) string {
+	isU := func(v ssa.Value) bool {
+		b, ok := v.Type().Underlying().(*types.Basic)
+		return ok && b.Info()&types.IsUnsigned != 0
+	}
+	isZero := func(v ssa.Value) bool {
+		c, ok := v.(*ssa.Const)
+		if !ok || c.Value == nil || c.Value.Kind() != constant.Int {
+			return false
+		}
+		n, exact := constant.Int64Val(c.Value)
+		return exact && n == 0
+	}
+	if isU(x) && isZero(y) {
+		switch op {
+		case "!=":
+			return ">"
+		case "<=":
+			return "=="
+		}
+	}
+	if isU(y) && isZero(x) {
+		switch op {
+		case "!=":
+			return "<"
+		case ">=":
+			return "=="
+		}
+	}
+	return op
 }
 
 func cmpString(t token.Token) string {
